@@ -34,8 +34,8 @@ def decCell : Sexp → Option (Nat × Cell)
       | list [t, p] => do pure (some ((← t.toNat?), (← optNat p)))
       | _ => none
     pure ((← tg.toNat?), .node (← lbl.toStr?) sc (← syms.mapM decSym) (← decNats kids))
-  | list [tg, list [atom "unit", isMod, name, par, t, secs, mems]] => do
-    pure ((← tg.toNat?), .unit (← isMod.toBool?) (← name.toStr?) (← optNat par) (← t.toNat?) (← decNats secs) (← decNats mems))
+  | list [tg, list [atom "unit", isMod, name, list attrs, par, t, secs, mems]] => do
+    pure ((← tg.toNat?), .unit (← isMod.toBool?) (← name.toStr?) (← attrs.mapM toStr?) (← optNat par) (← t.toNat?) (← decNats secs) (← decNats mems))
   | _ => none
 
 def decHeap : Sexp → Option Heap
@@ -56,6 +56,7 @@ def decOp : Sexp → Option (Bool × Op)
       | "retype", [v, c] => do pure (Op.retype path (← v.toStr?) (← c.toNat?))
       | "setsec", [k, list stmts, d] => do pure (Op.setsec path (← k.toNat?) (← stmts.mapM decNames) (← d.toNat?))
       | "addvar", [v, c] => do pure (Op.addvar path (← v.toStr?) (← c.toNat?))
+      | "touch", [_, _] => pure (Op.touch path)
       | "retypenode", [k, v, c] => do pure (Op.retypeNode path (← k.toNat?) (← v.toStr?) (← c.toNat?))
       | _, _ => none
     pure (side, op)
@@ -85,7 +86,7 @@ def unitTags : Nat → Heap → Addr → List Sexp
   | 0, _, _ => []
   | f + 1, h, u =>
     match h.get u with
-    | some (.unit _ _ _ _ secs mems) => secs.flatMap (nodeTags (f + 1) h) ++ mems.flatMap (unitTags f h)
+    | some (.unit _ _ _ _ _ secs mems) => secs.flatMap (nodeTags (f + 1) h) ++ mems.flatMap (unitTags f h)
     | _ => []
 
 /-- what the heap walker sees: cells reachable through strong references (children, tables, `typedef` links), not expanding
@@ -99,14 +100,14 @@ def reach : Nat → Heap → List Addr → List Addr → List Addr
     match h.get a with
     | some (.tab _ ents) => reach f h (ents.filterMap (·.2.tdef) ++ todo) (a :: seen)
     | some (.node _ sc _ kids) => reach f h ((match sc with | some (t, _) => [t] | none => []) ++ kids ++ todo) (a :: seen)
-    | some (.unit _ _ _ t secs mems) => reach f h (t :: secs ++ mems ++ todo) (a :: seen)
+    | some (.unit _ _ _ _ t secs mems) => reach f h (t :: secs ++ mems ++ todo) (a :: seen)
     | none => reach f h todo seen
 
 def cellLabel (h : Heap) (a : Addr) : String :=
   match h.get a with
   | some (.tab _ _) => "SymbolTable"
   | some (.node lbl _ _ _) => lbl
-  | some (.unit _ _ _ _ _ _) => "unit"
+  | some (.unit _ _ _ _ _ _ _) => "unit"
   | none => "?"
 
 def insertSorted (s : String) : List String → List String
@@ -123,7 +124,7 @@ def shared (h : Heap) (a b : Addr) : Sexp :=
 /-- owner of the unit the parent's table entry for `name(o)` is linked to -/
 def regOwner (h : Heap) (o : Addr) : Sexp :=
   match h.get o with
-  | some (.unit _ name (some p) _ _ _) =>
+  | some (.unit _ name _ (some p) _ _ _) =>
     match tabOf h p with
     | some t =>
       match alookup name.toLower (entsOf h t) with
